@@ -11,6 +11,7 @@ import (
 	"github.com/tigerwill90/fox"
 	vs "github.com/tigerwill90/fox/verifsync"
 
+	"verifharness/conc"
 	"verifharness/fx"
 	"verifharness/hist"
 	"verifharness/mc"
@@ -577,6 +578,11 @@ func concScenarios() []*mc.Scenario {
 		}},
 	}
 	var out []*mc.Scenario
+	// the state a request is being served from is frozen: an answer assembled from several lookups
+	// (405 / OPTIONS Allow list) must come from one committed state
+	for _, p := range conc.AllowPrograms() {
+		out = append(out, conc.LinScenario(p))
+	}
 	for _, rd := range readers {
 		for _, w := range writers {
 			rd, w := rd, w
@@ -603,7 +609,7 @@ func concScenarios() []*mc.Scenario {
 							}
 							for i := 0; i < 2; i++ {
 								if pv, stk := x.S.PanicOf(i); pv != nil {
-									return "panic", "panic", fmt.Sprintf("thread %d: %v\n%s", i, pv, stk)
+									return "panic", "panic", fmt.Sprintf("thread %d: %v\n%s", i, pv, mc.NormStack(stk, 10))
 								}
 							}
 							for i := 1; i < len(obs); i++ {
